@@ -125,7 +125,22 @@ class Check:
         stale = [k for ident, k in kmap.items() if ident not in self.findings]
         return listed, unlisted, stale
 
+    def withdraw_findings_of_broken_rules(self):
+        """a rule that reported ANALYSIS-ERROR (it could not find part of what it reasons about) does not also report VIOLATIONs: what it
+        says about the rest of the construct is not reliable.  Positive findings (forbidden construct present) stand."""
+        broken = {r for r, _ in self.errors}
+        n = 0
+        for ident, f in list(self.findings.items()):
+            if ident in self.positive:
+                continue
+            if any(f.rule == b or f.rule.startswith(b + ".") or b.startswith(f.rule + ".") for b in broken):
+                del self.findings[ident]
+                n += 1
+                self.errors.append((f.rule, "not reported as a violation because the rule could not be applied completely: %s" % str(f.key)[:100]))
+        return n
+
     def finish(self, level="other", explanation="", seed=0, evidence_dir=None, extra_cov=None):
+        self.withdraw_findings_of_broken_rules()
         listed, unlisted, stale = self.classify()
         out = []
         code = 0
@@ -150,10 +165,10 @@ class Check:
                 out.append("  path: " + " > ".join(str(p) for p in f.path[:14]))
         for k in stale:
             out.append("NOTE: listed known finding no longer reported (repaired?): rule=%s %s" % (k["rule"], canon_key(k["key"])))
-        if self.errors:
+        if unlisted:
+            code = 1            # a violation that was positively identified stands, whatever else could not be analysed
+        elif self.errors:
             code = 2
-        elif unlisted:
-            code = 1
         wall = time.time() - self.t0
         total = len(self.obligations)
         ok = sum(1 for o in self.obligations if o[2])
